@@ -16,6 +16,8 @@
 #include <hgraph/types/static_schema.h>
 #include <hgraph/types/type_resolution.h>
 
+#include <dlfcn.h>
+#include <cstdio>
 #include <memory>
 
 namespace hv
@@ -272,7 +274,13 @@ namespace hv
                     for (auto &d : split(st.tok[1], ',')) if (!d.empty()) cfg.tape.push_back(std::stoll(d));
             }
             else if (k == "emit_tape") cfg.record_tape = true;
-            else if (k == "instr") { cfg.instr_interval = std::stoi(st.tok.at(1)); cfg.instr_target_mod = static_cast<int>(st.geti("target", 0)); cfg.instr_target_cap = static_cast<int>(st.geti("cap", 20000)); }   // instrumented build: extra pre-emption points
+            else if (k == "instr")
+            {   // instrumented build: extra pre-emption points
+                cfg.instr_interval = std::stoi(st.tok.at(1)); cfg.instr_target_mod = static_cast<int>(st.geti("target", 0)); cfg.instr_target_cap = static_cast<int>(st.geti("cap", 20000));
+                cfg.instr_profile = st.geti("profile", 0) != 0;
+                if (st.has("site")) cfg.instr_site = std::stoull(st.get("site"), nullptr, 16);
+                cfg.instr_site_skip = static_cast<int>(st.geti("skip", 0));
+            }
             else if (k == "maxsteps") cfg.max_steps = std::stoll(st.tok.at(1));
             if (k == "instr" && cfg.max_steps < 5'000'000) cfg.max_steps = 5'000'000;     // every extra pre-emption point is a step
         }
@@ -325,7 +333,7 @@ namespace hv
                         // the sender exists once the push source has started; a producer started early polls for it
                         int polls = 0;
                         while (!pd->started && polls < 10000) { sim::sleep_us(1); ++polls; }
-                        Line("thr").str("th", t->name).str("op", op.op).str("push", op.push).i("v", op.n).str("phase", "inv").i("seq", sim::seq()).i("wall", wall_off()).emit();
+                        Line("thr").str("th", t->name).str("op", op.op).str("push", op.push).i("v", op.n).str("phase", "inv").i("seq", sim::seq()).i("wall", wall_off()).i("eng", sim::thread_state(0)).emit();
                         bool ok = op.op == "try" ? pd->sender.try_send(Int{op.n}) : pd->sender.send_blocking(Int{op.n});
                         Line("thr").str("th", t->name).str("op", op.op).str("push", op.push).i("v", op.n).str("phase", "ret").b("res", ok).i("seq", sim::seq()).i("wall", wall_off()).emit();
                     }
@@ -355,6 +363,32 @@ namespace hv
             for (long long x : sim::tape_record()) { if (!tp.empty()) tp += ","; tp += std::to_string(x); }
             Line("tape").i("n", static_cast<long long>(sim::tape_record().size())).str("v", tp).emit();
         }
+        if (cfg.instr_profile)
+        {
+            // candidate sites of the sweep: address (stable: ASLR is off), thread, number of entries, and - where the dynamic
+            // symbol table knows it - the enclosing function, so that a report can say where the pre-emption was
+            std::string js = "[";
+            bool first = true;
+            for (auto &si : sim::profiled_sites())
+            {
+                if (!first) js += ",";
+                first = false;
+                char buf[64];
+                std::snprintf(buf, sizeof buf, "%llx", si.site);
+                Dl_info di{};
+                std::string sym;
+                if (dladdr(reinterpret_cast<void *>(static_cast<uintptr_t>(si.site)), &di) && di.dli_sname != nullptr)
+                {
+                    sym = di.dli_sname;
+                    char off[32];
+                    std::snprintf(off, sizeof off, "+%llx", static_cast<unsigned long long>(si.site - reinterpret_cast<uintptr_t>(di.dli_saddr)));
+                    sym += off;
+                }
+                js += "[\"" + std::string(buf) + "\"," + std::to_string(si.thread) + "," + std::to_string(si.entries) + ",\"" + sym + "\"]";
+            }
+            js += "]";
+            Line("sites").raw("v", js).emit();
+        }
         Line("end").str("run", "done").i("steps", s.steps).i("preemptions", s.preemptions).i("clock_jumps", s.clock_jumps).i("forced_timeouts", s.forced_timeouts)
             .i("spurious", s.spurious).i("stalls", s.stalls).i("late", s.late).i("starved", s.starved).i("mutex_blocks", s.mutex_blocks)
             .i("cond_waits", s.cond_waits).i("timed_waits", s.timed_waits).i("notifies", s.notifies).i("instr_points", s.instr_points).i("sim_elapsed_us", sim::now_us() - g_start_wall)
@@ -362,3 +396,4 @@ namespace hv
         return 0;
     }
 }  // namespace hv
+// site sweep options: instr <n> profile=1 | site=<hex> skip=<n>
